@@ -57,8 +57,17 @@ EXPLANATION = (
     "(get_segment) are requested only by Segmentation (which walks all segments of the range and trims them), by get_segsize and "
     "by the forwarding wrapper - a 'small file' short cut that hands over segment 0 is a by-pass of exactly this kind; in (7) also: "
     "on every path through DecryptingConsumer.__init__ the decryptor kept is the one keyed in that constructor from its own "
-    "(readkey, offset), nobody else stores it, and the residue is consumed behind every such store.  "
-    "Undecided: the arithmetic identities themselves (sum of block sizes == share size), zfec, AES, hash trees; that the "
+    "(readkey, offset), nobody else stores it, and the residue is consumed behind every such store; (18) every server that a "
+    "ShareFinder method takes off the permuted-server iterator (the attribute fed from get_servers_for_psi; next() with or without "
+    "default, pop-like calls, a `for` over it, or a helper method of the class that returns the element) is on every path to the "
+    "method's normal exit asked for its shares (the get_buckets query, followed through send_request and other methods that hand "
+    "their parameter over on every path, also deferred through eventually/callLater(self.meth, server)), put back / kept in an "
+    "attribute of self, or returned to the caller - the edge on which the variable holds no element is exempt - and such a method "
+    "overwrites the iterator attribute only behind evidence that it is exhausted (StopIteration edge of the take, end of the "
+    "`for`, a take that came back empty, the attribute already None); reads of the iterator in any other form (islice, list(), "
+    "comprehensions) are an ANALYSIS-ERROR.  "
+    "Undecided: in (18) what becomes of an element that was stored into an attribute of self (it counts as kept), and whether a "
+    "helper that returns None did so because the iterator is exhausted; the arithmetic identities themselves (sum of block sizes == share size), zfec, AES, hash trees; that the "
     "spans a stage fetches are the spans _desire_* requested (a mismatch stalls every download); the value-level guards "
     "(2**32 / 2**64 layout-version limits, the segnum >= num_segments BADSEGNUM boundary - SegmentFetcher re-checks it -, "
     "length assertions in put_* / _decode_blocks); corruption handling in the _satisfy_* except branches (honest servers "
@@ -68,7 +77,9 @@ EXPLANATION = (
 TECHNIQUE = ("static analysis: symbolic normal forms of size formulas compared under a symbol map, struct-format "
              "folding of the share header, CFG gate rules for pad/trim, typestate exploration of CommonShare creation, "
              "of absent-data edges and of the satisfaction round (stage results, request retirement) in the downloader, "
-             "inter-procedural reachability x memo-guard typestate for calls that move the uploadable's file handle")
+             "inter-procedural reachability x memo-guard typestate for calls that move the uploadable's file handle, "
+             "token typestate (taken server -> asked / kept / returned) over the CFGs of the ShareFinder methods with "
+             "per-method hand-over and returns-an-element summaries")
 
 ENC = "immutable.encode:Encoder"
 NODE = "immutable.downloader.node:DownloadNode"
@@ -3079,6 +3090,476 @@ def run_read_path(ctx, r):
         r.violation(f, f.loc(nd), "%s takes get_segment as a value" % short(f))
 
 
+# ------------------------------------------ every server taken off the finder's server iterator is asked
+_TAKE_METHODS = ("pop", "popleft", "__next__", "next")
+_KEEP_METHODS = ("append", "appendleft", "add", "insert", "extend", "extendleft", "put", "put_nowait", "push")
+
+
+def _carried_names(e):
+    """Plain names whose *value* is part of the value of e (`x`, `[x]`, `f(x)`), not names that are only the receiver
+    of an attribute access (`x.get_name()` carries a name of x, not x)."""
+    skip = set()
+    out = set()
+    for x in own_nodes(e, into_lambda=True):
+        if isinstance(x, ast.Attribute) and isinstance(x.value, ast.Name):
+            skip.add(id(x.value))
+    for x in own_nodes(e, into_lambda=True):
+        if isinstance(x, ast.Name) and id(x) not in skip:
+            out.add(x.id)
+    return out
+
+
+def _is_none(e):
+    return isinstance(e, ast.Constant) and e.value is None
+
+
+class ServerFlow:
+    """The flow of the elements of ShareFinder's permuted-server iterator.  The iterator attribute is found by role (the
+    attribute that is given the servers of get_servers_for_psi()); an element is *taken* by next(<attr>[, default]),
+    <attr>.pop()/popleft()/__next__(), a `for` over the attribute, or a call of a method of the class that returns a
+    taken element; it is *handed over* by the query itself (<element>...get_buckets(..)), by a call (direct, or deferred
+    through eventually/callLater-style `f(self.meth, element)`) of a method of the class that hands its parameter over on
+    every path, by being put back / kept (a store into an attribute of self, an append-like call on one), or by being
+    returned to the caller."""
+
+    def __init__(self, idx):
+        self.idx = idx
+        self.ci = idx.cls(FINDER)
+        self.cg = get_callgraph(idx)
+        self.fns = []
+        for c in self.ci.mro():
+            for m in c.methods.values():
+                if all(m.name != f.name for f in self.fns):
+                    self.fns.append(m)
+        self.attrs, self.attr_site = self._iterator_attrs()
+        self._hand = {}
+        self._src = {}
+        self._flow = {}
+        self.states = 0
+
+    # ---- the iterator attribute, by role
+    def _iterator_attrs(self):
+        attrs, site = set(), None
+        for fn in self.fns:
+            for x in func_own_nodes(fn):
+                if not isinstance(x, ast.Assign):
+                    continue
+                if not any(call_tail(c) == "get_servers_for_psi" for c in calls_feeding(fn, x.value)):
+                    continue
+                for t in x.targets:
+                    p = attr_path(t) if isinstance(t, ast.Attribute) else None
+                    if p and p.startswith("self.") and p.count(".") == 1:
+                        attrs.add(p)
+                        site = site or (fn, x)
+        if not attrs:
+            raise AnchorVanished("ShareFinder no longer keeps the servers of get_servers_for_psi() in an attribute of its own")
+        return attrs, site
+
+    def is_attr(self, e):
+        return isinstance(e, ast.Attribute) and attr_path(e) in self.attrs
+
+    def check_uses(self):
+        """Fail closed: every read of the iterator attribute inside the class is one of the forms the flow understands."""
+        parent = {}
+        for x in ast.walk(self.ci.node):
+            for ch in ast.iter_child_nodes(x):
+                parent[id(ch)] = x
+        for x in ast.walk(self.ci.node):
+            if not (self.is_attr(x) and isinstance(x.ctx, ast.Load)):
+                continue
+            p = parent.get(id(x))
+            ok = False
+            if isinstance(p, ast.Call) and isinstance(p.func, ast.Name) and p.func.id == "next" and p.args and p.args[0] is x \
+                    and len(p.args) <= 2 and not p.keywords:
+                ok = True
+            elif isinstance(p, ast.Attribute) and p.attr in _TAKE_METHODS and isinstance(parent.get(id(p)), ast.Call) \
+                    and parent[id(p)].func is p:
+                ok = True
+            elif isinstance(p, ast.Attribute) and p.attr in _KEEP_METHODS:
+                ok = True
+            elif isinstance(p, (ast.For, ast.AsyncFor)) and p.iter is x:
+                ok = True
+            elif isinstance(p, ast.Compare) and len(p.ops) == 1 and isinstance(p.ops[0], (ast.Is, ast.IsNot, ast.Eq, ast.NotEq)) \
+                    and any(_is_none(o) for o in [p.left] + p.comparators):
+                ok = True
+            elif isinstance(p, (ast.If, ast.While, ast.IfExp, ast.Assert)) and p.test is x:
+                ok = True
+            elif isinstance(p, ast.BoolOp) or (isinstance(p, ast.UnaryOp) and isinstance(p.op, ast.Not)):
+                # operand of and / or / not in a truth position (a test), not a value (`for s in self._servers or ()`)
+                top = p
+                while isinstance(parent.get(id(top)), ast.BoolOp) or (isinstance(parent.get(id(top)), ast.UnaryOp)
+                                                                      and isinstance(parent[id(top)].op, ast.Not)):
+                    top = parent[id(top)]
+                pp = parent.get(id(top))
+                ok = isinstance(pp, (ast.If, ast.While, ast.IfExp, ast.Assert)) and pp.test is top
+            else:
+                # a re-store of the attribute that keeps what it held: self._servers = chain([server], self._servers)
+                q = p
+                while q is not None and not isinstance(q, ast.stmt):
+                    q = parent.get(id(q))
+                if isinstance(q, ast.Assign) and any(self.is_attr(t) for t in q.targets):
+                    ok = True
+            if not ok:
+                raise AnalysisError("ShareFinder reads its server iterator %s in a way the flow of its elements cannot be "
+                                    "followed through: %s" % (attr_path(x), ast.unparse(p)[:80]))
+
+    # ---- taking an element
+    def direct_take(self, e):
+        """next(<attr>[, default]) / <attr>.pop() ... -> 'default' | 'raises' ; else None."""
+        if not isinstance(e, ast.Call):
+            return None
+        if isinstance(e.func, ast.Name) and e.func.id == "next" and e.args and self.is_attr(e.args[0]):
+            return "default" if len(e.args) > 1 else "raises"
+        if isinstance(e.func, ast.Attribute) and e.func.attr in _TAKE_METHODS and self.is_attr(e.func.value):
+            return "raises"
+        return None
+
+    def callees(self, fn, call):
+        f = call.func
+        if isinstance(f, ast.Attribute) and isinstance(f.value, ast.Name) and f.value.id == "self":
+            return [m for m in self.cg.resolve(fn, call) if m.cls is not None]
+        return []
+
+    def is_take(self, fn, e):
+        if self.direct_take(e):
+            return True
+        if isinstance(e, ast.Call):
+            ms = self.callees(fn, e)
+            return bool(ms) and any(self.returns_element(m) for m in ms)
+        return False
+
+    def returns_element(self, m):
+        if m.qual not in self._src:
+            self._src[m.qual] = False          # recursion: not a source
+            self._src[m.qual] = self.flow(m, ())["returns"]
+        return self._src[m.qual]
+
+    def hands_over(self, m, param):
+        k = (m.qual, param)
+        if k not in self._hand:
+            self._hand[k] = False              # recursion: no hand-over
+            self._hand[k] = param in m.params and not self.flow(m, (param,))["dropped"]
+        return self._hand[k]
+
+    def method_ref(self, fn, e):
+        if isinstance(e, ast.Attribute) and isinstance(e.value, ast.Name) and e.value.id == "self" and fn.cls is not None:
+            return fn.cls.lookup(e.attr)
+        return None
+
+    def _passes(self, fn, call, names):
+        """The names (subset of `names`) this call hands over."""
+        out = set()
+        # the query itself
+        if call_tail(call) == "get_buckets" and isinstance(call.func, ast.Attribute):
+            recv = call.func.value
+            out |= names & (names_in(recv) | {d for d in depends_on(fn, recv) if "." not in d})
+        # a method of the class that hands its parameter over on every path
+        ms = self.callees(fn, call)
+        if ms:
+            for nm in names:
+                good = True
+                hit = False
+                for m in ms:
+                    ps = first_positional_params(m)
+                    bound = [ps[i] for i, a in enumerate(call.args) if i < len(ps) and isinstance(a, ast.Name) and a.id == nm]
+                    bound += [kw.arg for kw in call.keywords if kw.arg and isinstance(kw.value, ast.Name) and kw.value.id == nm]
+                    if not bound:
+                        good = False
+                        continue
+                    hit = True
+                    good = good and any(self.hands_over(m, p) for p in bound)
+                if hit and good:
+                    out.add(nm)
+        # a deferred call: eventually(self.send_request, server), reactor.callLater(0, self.send_request, server)
+        for i, a in enumerate(call.args):
+            m = self.method_ref(fn, a)
+            if m is None:
+                continue
+            ps = first_positional_params(m)
+            for j, b in enumerate(call.args[i + 1:]):
+                if isinstance(b, ast.Name) and b.id in names and j < len(ps) and self.hands_over(m, ps[j]):
+                    out.add(b.id)
+        # put back / kept for a later turn: an append-like call on an attribute of self
+        if isinstance(call.func, ast.Attribute) and call.func.attr in _KEEP_METHODS:
+            p = attr_path(call.func.value)
+            if p and p.startswith("self."):
+                for a in list(call.args) + [kw.value for kw in call.keywords]:
+                    out |= names & _carried_names(a)
+        return out
+
+    # ---- the monitor
+    def flow(self, fn, init):
+        key = (fn.qual, tuple(init))
+        if key in self._flow:
+            return self._flow[key]
+        cfg = fn.cfg()
+        res = {"dropped": [], "returns": False, "takes": []}
+        PARAM = -1
+
+        def all_names(st):
+            s = set()
+            for (_i, nms) in st:
+                s |= nms
+            return s
+
+        def clear(st, names):
+            return frozenset(t for t in st if not (t[1] & names))
+
+        def rebind(st, stored):
+            return frozenset((i, nms - stored) if nms else (i, nms) for (i, nms) in st)
+
+        def takes_in(e):
+            return [x for x in own_nodes(e) if isinstance(x, ast.Call) and self.is_take(fn, x)]
+
+        def handed_directly(n, take):
+            """the taken element is an argument of a call that hands it over: self.send_request(next(self._servers))"""
+            for c in node_calls(n, into_lambda=True):
+                if not any(a is take for a in c.args):
+                    continue
+                tmp = copy.copy(c)
+                tmp.args = [ast.Name(id="__taken__", ctx=ast.Load()) if a is take else a for a in c.args]
+                if "__taken__" in self._passes(fn, tmp, {"__taken__"}):
+                    return True
+            return False
+
+        def yields(v, take):
+            if v is take:
+                return True
+            if isinstance(v, ast.IfExp):
+                return yields(v.body, take) or yields(v.orelse, take)
+            return False
+
+        def stmt_effect(n, st):
+            a = n.ast
+            exprs = node_exprs(n)
+            names = all_names(st)
+            # 1. hand-overs of what is held
+            gone = set()
+            if names:
+                for c in node_calls(n, into_lambda=True):
+                    gone |= self._passes(fn, c, names)
+                if isinstance(a, ast.Assign) and any(isinstance(t, (ast.Attribute, ast.Subscript)) and
+                                                     (attr_path(t if isinstance(t, ast.Attribute) else t.value) or "").startswith("self.")
+                                                     for t in a.targets):
+                    gone |= names & _carried_names(a.value)
+                if isinstance(a, ast.Return) and a.value is not None:
+                    back = names & _carried_names(a.value)
+                    if back:
+                        res["returns"] = True
+                        gone |= back
+            if gone:
+                st = clear(st, gone)
+            # 2. (re)binding of plain names
+            stored = {s for s in node_stores(n) if "." not in s and not s.endswith("[]")}
+            if stored:
+                alias = None
+                if isinstance(a, ast.Assign) and len(a.targets) == 1 and isinstance(a.targets[0], ast.Name) \
+                        and isinstance(a.value, ast.Name) and a.value.id in all_names(st) and a.value.id not in stored:
+                    alias = a.value.id
+                st = rebind(st, stored)
+                if alias is not None:
+                    st = frozenset((i, nms | stored) if alias in nms else (i, nms) for (i, nms) in st)
+            # 3. elements taken here
+            for e in exprs:
+                for take in takes_in(e):
+                    if (n.id, id(take)) not in seen_takes:
+                        seen_takes.add((n.id, id(take)))
+                        res["takes"].append((n, take))
+                    walrus = [x for x in own_nodes(e) if isinstance(x, ast.NamedExpr) and x.value is take
+                              and isinstance(x.target, ast.Name)]
+                    if walrus:
+                        st = st | {(n.id, frozenset([walrus[0].target.id]))}
+                    elif handed_directly(n, take):
+                        pass
+                    elif isinstance(a, ast.Return) and a.value is not None and yields(a.value, take):
+                        res["returns"] = True
+                    elif isinstance(a, (ast.Assign, ast.AnnAssign)) and a.value is not None and yields(a.value, take):
+                        tg = a.targets if isinstance(a, ast.Assign) else [a.target]
+                        if all(isinstance(t, ast.Name) for t in tg):
+                            st = st | {(n.id, frozenset(t.id for t in tg))}
+                        elif all(isinstance(t, (ast.Attribute, ast.Subscript)) and
+                                 (attr_path(t if isinstance(t, ast.Attribute) else t.value) or "").startswith("self.") for t in tg):
+                            pass                # kept in an attribute of self
+                        else:
+                            st = st | {(n.id, frozenset())}
+                    else:
+                        st = st | {(n.id, frozenset())}      # taken and thrown away
+            return st
+
+        def subject(e):
+            if isinstance(e, ast.Name):
+                return e.id
+            if isinstance(e, ast.NamedExpr) and isinstance(e.target, ast.Name):
+                return e.target.id
+            return None
+
+        def absent_on(t, pol):
+            """name that is established to hold no element (None / false) on the `pol` edge of test t"""
+            s = subject(t)
+            if s is not None:
+                return s if pol == "F" else None
+            if isinstance(t, ast.Compare) and len(t.ops) == 1:
+                l, rr = t.left, t.comparators[0]
+                if _is_none(l):
+                    l, rr = rr, l
+                if _is_none(rr) and subject(l) is not None:
+                    if isinstance(t.ops[0], (ast.Is, ast.Eq)):
+                        return subject(l) if pol == "T" else None
+                    if isinstance(t.ops[0], (ast.IsNot, ast.NotEq)):
+                        return subject(l) if pol == "F" else None
+            return None
+
+        seen_takes = set()
+
+        def transfer(n, lab, nxt, st):
+            if n.kind in ("entry", "exit", "raise") or lab == "exc":
+                return st
+            if n.kind == "iter":
+                if lab != "iter":
+                    return st
+                tn = {x.id for x in ast.walk(n.ast.target) if isinstance(x, ast.Name)}
+                st = rebind(st, tn)
+                if self.is_attr(n.ast.iter):
+                    if (n.id, id(n.ast.iter)) not in seen_takes:
+                        seen_takes.add((n.id, id(n.ast.iter)))
+                        res["takes"].append((n, n.ast.iter))
+                    st = st | {(n.id, frozenset(tn) if isinstance(n.ast.target, ast.Name) else frozenset())}
+                return st
+            st = stmt_effect(n, st)
+            if n.kind == "test" and isinstance(lab, tuple):
+                nm = absent_on(n.ast, lab[0])
+                if nm is not None:
+                    st = clear(st, {nm})
+            return st
+
+        init_st = frozenset((PARAM, frozenset([p])) for p in init)
+        visited, parent = explore(cfg, init_st, transfer)
+        self.states += len(visited)
+        seen = set()
+        for (nid, st) in sorted(visited, key=lambda v: (v[0], sorted((i, sorted(nms)) for (i, nms) in v[1]))):
+            if cfg.nodes[nid].kind != "exit":
+                continue
+            for (i, nms) in st:
+                if i in seen:
+                    continue
+                seen.add(i)
+                res["dropped"].append((cfg.nodes[i] if i >= 0 else None, nms, witness(cfg, parent, (nid, st))))
+        self._flow[key] = res
+        return res
+
+
+def _iterator_given_up_only_when_exhausted(sf, fn, r):
+    """In a method that takes servers off the iterator, the iterator attribute is overwritten (with None, or anything that
+    does not carry the old iterator or the servers of get_servers_for_psi) only behind evidence that it is exhausted: the
+    exceptional edge of a take (StopIteration), the `done` edge of a `for` over it, the edge on which a variable bound
+    only by takes holds no element, or the edge on which the attribute itself is None / false."""
+    cfg = fn.cfg()
+    rd = C.reaching_defs(cfg)
+
+    def gives_up(n):
+        a = n.ast
+        if n.kind != "stmt" or not isinstance(a, ast.Assign) or not any(sf.is_attr(t) for t in a.targets):
+            return False
+        if any(call_tail(c) == "get_servers_for_psi" for c in calls_feeding(fn, a.value)):
+            return False
+        return not any(sf.is_attr(x) for x in own_nodes(a.value, into_lambda=True))
+
+    def takes_at(n):
+        return [x for e in node_exprs(n) for x in own_nodes(e) if isinstance(x, ast.Call) and sf.is_take(fn, x)]
+
+    def absent(t, pol):
+        def subj(e):
+            if isinstance(e, ast.NamedExpr):
+                e = e.value if sf.is_attr(e.value) else e.target
+            if isinstance(e, ast.Name) or sf.is_attr(e):
+                return e
+            return None
+        if subj(t) is not None:
+            return subj(t) if pol == "F" else None
+        if isinstance(t, ast.Compare) and len(t.ops) == 1:
+            l, rr = t.left, t.comparators[0]
+            if _is_none(l):
+                l, rr = rr, l
+            if _is_none(rr) and subj(l) is not None:
+                if isinstance(t.ops[0], (ast.Is, ast.Eq)):
+                    return subj(l) if pol == "T" else None
+                if isinstance(t.ops[0], (ast.IsNot, ast.NotEq)):
+                    return subj(l) if pol == "F" else None
+        return None
+
+    def evidence(n, lab):
+        if lab == "exc":
+            # a node that calls nothing raises nothing a handler around a take is there for (the edge is an artefact of
+            # the CFG's "anything in a try body may raise")
+            return not node_calls(n) or (n.kind in ("stmt", "test") and bool(takes_at(n)))
+        if n.kind == "iter":
+            return lab == "done" and sf.is_attr(n.ast.iter)
+        if n.kind == "test" and isinstance(lab, tuple):
+            e = absent(n.ast, lab[0])
+            if e is None:
+                return False
+            if sf.is_attr(e):
+                return True
+            if isinstance(n.ast, ast.NamedExpr) or any(isinstance(x, ast.NamedExpr) and isinstance(x.target, ast.Name)
+                                                       and x.target.id == e.id for x in own_nodes(n.ast)):
+                return bool(takes_at(n))
+            defs = rd.get(n.id, {}).get(e.id)
+            if not defs:
+                return False
+            for d in defs:
+                if d < 0:
+                    return False
+                dn = cfg.nodes[d]
+                a = dn.ast
+                if not (dn.kind == "stmt" and isinstance(a, (ast.Assign, ast.AnnAssign)) and a.value is not None
+                        and isinstance(a.value, ast.Call) and sf.is_take(fn, a.value)):
+                    return False
+            return True
+        return False
+
+    if not cfg.find(gives_up):
+        return
+    for (n, w) in find_path_avoiding(cfg, gives_up, gate_edge=evidence):
+        r.violation(fn, fn.loc(n.ast), "%s gives up the finder's server iterator (%s) on a path that has not established that "
+                    "it is exhausted (no StopIteration of the take, no end of a `for` over it, no take that came back empty): "
+                    "%s - the servers that were still on it are never asked, so their shares are never found, and a file whose "
+                    "encoding cannot spare them fails with NotEnoughSharesError although every share is in place"
+                    % (short(fn), src(fn, n.ast)[:60], w.brief()), w)
+
+
+def run_servers_asked(ctx, r):
+    """A download finds its shares by asking the servers of the permuted list one after the other; a server that is taken
+    off the list and not asked is never asked (the iterator does not go back), so its shares are lost to the download:
+    with an encoding that cannot spare them the read fails with NotEnoughSharesError although every share is in place."""
+    idx = ctx.idx
+    sf = ServerFlow(idx)
+    sf.check_uses()
+    fn0, st0 = sf.attr_site
+    r.site(fn0, st0, "the server iterator is %s" % ", ".join(sorted(sf.attrs)))
+    n_takes = 0
+    for fn in sf.fns:
+        direct = [x for x in func_own_nodes(fn) if sf.direct_take(x) or (isinstance(x, (ast.For, ast.AsyncFor)) and sf.is_attr(x.iter))]
+        calls = [x for x in func_own_nodes(fn) if isinstance(x, ast.Call) and not sf.direct_take(x) and sf.is_take(fn, x)]
+        if not direct and not calls:
+            continue
+        res = sf.flow(fn, ())
+        for x in direct:
+            n_takes += 1
+            r.site(fn, x, "a server is taken off the iterator")
+        for (n, nms, w) in res["dropped"]:
+            at = n.ast.iter if n.kind == "iter" else n.ast
+            how = ("held in `%s`" % "`, `".join(sorted(nms))) if nms else "not kept in any variable"
+            r.violation(fn, fn.loc(n.ast), "%s takes a server off the finder's server iterator (%s; %s) and can return without "
+                        "asking it for its shares (no get_buckets query through send_request, not put back, not returned to "
+                        "the caller) on the path %s: the iterator never yields that server again, so its shares are never "
+                        "found, and a file whose encoding cannot spare them fails with NotEnoughSharesError although every "
+                        "share is in place" % (short(fn), src(fn, at)[:70], how, w.brief()), w)
+        _iterator_given_up_only_when_exhausted(sf, fn, r)
+    r.count(sf.states)
+    if not n_takes:
+        raise AnchorVanished("no place in ShareFinder takes a server off %s" % ", ".join(sorted(sf.attrs)))
+
+
 # ====================================================================== driver
 def run(ctx: Context):
     idx = ctx.idx
@@ -3170,3 +3651,10 @@ def run(ctx: Context):
                   "behind the fact that the length of the read is 0; whole segments (get_segment) are requested only by "
                   "Segmentation, get_segsize and the forwarding wrapper", expected=4) as r:
         run_read_path(ctx, r)
+
+    with ctx.rule("C01.18", "R1/R3", "every server that ShareFinder takes off its permuted-server iterator (next() on the "
+                  "attribute that holds the servers of get_servers_for_psi, directly, in a `for`, or through a helper method "
+                  "that returns the element) is, on every path to the normal exit of the method, asked for its shares (the "
+                  "get_buckets query, reached through send_request), put back / kept in an attribute, or returned to the "
+                  "caller; the edge on which the variable holds no element (None / false) is exempt", expected=2) as r:
+        run_servers_asked(ctx, r)
